@@ -13,6 +13,10 @@
 (***************************************************************************)
 EXTENDS Integers, Sequences, FiniteSets, Bitwise, TLC
 
+(* TLC evaluates [i \in S |-> e] lazily and re-evaluates e on every application; Strict   *)
+(* forces it into an explicit sequence once (semantically the identity on sequences).      *)
+Strict(f) == f \o <<>>
+
 Min2(a, b) == IF a < b THEN a ELSE b
 Max2(a, b) == IF a > b THEN a ELSE b
 
@@ -98,18 +102,18 @@ IpCmp(a, b) == LexCmp(a, b)                              \* only meaningful with
 Pow2(n) == 2 ^ n
 (* first / last address of the CIDR block a/len *)
 CidrFirst(a, len) ==
-  [i \in 1..Len(a) |->
+  Strict([i \in 1..Len(a) |->
      LET hi == 8 * i IN                      \* bits covered up to and including octet i
      IF hi <= len THEN a[i]
      ELSE IF hi - 8 >= len THEN 0
-     ELSE LET keep == len - (hi - 8) IN (a[i] \div Pow2(8 - keep)) * Pow2(8 - keep)]
+     ELSE LET keep == len - (hi - 8) IN (a[i] \div Pow2(8 - keep)) * Pow2(8 - keep)])
 CidrLast(a, len) ==
-  [i \in 1..Len(a) |->
+  Strict([i \in 1..Len(a) |->
      LET hi == 8 * i IN
      IF hi <= len THEN a[i]
      ELSE IF hi - 8 >= len THEN 255
      ELSE LET keep == len - (hi - 8) IN
-          (a[i] \div Pow2(8 - keep)) * Pow2(8 - keep) + (Pow2(8 - keep) - 1)]
+          (a[i] \div Pow2(8 - keep)) * Pow2(8 - keep) + (Pow2(8 - keep) - 1)])
 CidrHasHostBits(a, len) == CidrFirst(a, len) # a
 
 ----------------------------------------------------------------------------
@@ -152,7 +156,7 @@ WellTyped(v) ==
   ELSE TRUE
 
 (* the elements of a container in iteration order (arrays: index order; maps: ascending key) *)
-Elems(v) == IF v.t = "arr" THEN v.v ELSE [i \in 1..Len(v.v) |-> v.v[i].v]
+Elems(v) == IF v.t = "arr" THEN v.v ELSE Strict([i \in 1..Len(v.v) |-> v.v[i].v])
 
 RECURSIVE FlatSeq(_)
 FlatSeq(ss) == IF ss = <<>> THEN <<>> ELSE Head(ss) \o FlatSeq(Tail(ss))
